@@ -325,6 +325,7 @@ def particle_number_measurement(
     if (
         marginal_sampling
         and is_ideal_or_uniform_lossy
+        and state.is_indistinguishable
         and is_direct_marginal_sampling_cheaper(
             k=len(modes) + len(postselected_modes),
             d=state.total_number_of_modes,
